@@ -288,4 +288,60 @@ theorem nothing_waits_under_a_mutex (p : Prog) (hs : safe p = true) (ha : acts p
 example : acts (.seq (.lock 1) (.seq (.act 0) (.unlock 1))) {} = [0] := by decide
 example : acts (.seq (.lock 1) (.seq (.unlock 1) (.act 0))) {} = [] := by decide
 
+/-! ### every skeleton has an execution -/
+
+/-- every skeleton has an execution from every state: the statements about "every execution" are about something -/
+theorem run_total (p : Prog) : ∀ s, ∃ o, Run p s o := by
+  induction p with
+  | skip => exact fun s => ⟨_, .skip s⟩
+  | seq a b iha ihb =>
+    intro s
+    obtain ⟨oa, ha⟩ := iha s
+    cases oa with
+    | normal s' =>
+      obtain ⟨ob, hb⟩ := ihb s'
+      exact ⟨ob, .seqGo a b s s' ob ha hb⟩
+    | returned s' => exact ⟨_, .seqStop a b s _ ha (by simp)⟩
+    | broke s' => exact ⟨_, .seqStop a b s _ ha (by simp)⟩
+    | continued s' => exact ⟨_, .seqStop a b s _ ha (by simp)⟩
+    | bad => exact ⟨_, .seqStop a b s _ ha (by simp)⟩
+  | lock m =>
+    intro s
+    by_cases h : m ∈ s.held
+    · exact ⟨_, .lockBad m s h⟩
+    · exact ⟨_, .lockOk m s h⟩
+  | unlock m =>
+    intro s
+    by_cases h : m ∈ s.held
+    · exact ⟨_, .unlockOk m s h⟩
+    · exact ⟨_, .unlockBad m s h⟩
+  | dunlock m => exact fun s => ⟨_, .dunlock m s⟩
+  | ret => exact fun s => ⟨_, .ret s⟩
+  | ite a b iha _ =>
+    intro s
+    obtain ⟨o, h⟩ := iha s
+    exact ⟨o, .iteL a b s o h⟩
+  | loop a _ => exact fun s => ⟨_, .loopEnd a s⟩
+  | «catch» a ih =>
+    intro s
+    obtain ⟨o, h⟩ := ih s
+    cases o with
+    | broke s' => exact ⟨_, .catchBrk a s s' h⟩
+    | normal s' => exact ⟨_, .catchOther a s _ h (by simp)⟩
+    | returned s' => exact ⟨_, .catchOther a s _ h (by simp)⟩
+    | continued s' => exact ⟨_, .catchOther a s _ h (by simp)⟩
+    | bad => exact ⟨_, .catchOther a s _ h (by simp)⟩
+  | brk => exact fun s => ⟨_, .brk s⟩
+  | cont => exact fun s => ⟨_, .cont s⟩
+  | act k => exact fun s => ⟨_, .act k s⟩
+  | unknown => exact fun s => ⟨_, .unknown s⟩
+
+/-- a skeleton the checker accepts has an execution, and it ends holding nothing -/
+theorem safe_has_a_clean_execution (p : Prog) (hs : safe p = true) :
+    ∃ o s, Run p {} o ∧ (o = .normal s ∨ o = .returned s) ∧ final s.held s.deferred = some [] := by
+  obtain ⟨o, h⟩ := run_total p {}
+  obtain ⟨s, ho, hf⟩ := safe_sound p hs o h
+  exact ⟨o, s, h, ho, hf⟩
+
+
 end QiVerif.Locks
